@@ -201,8 +201,8 @@ Proof.
   - inversion_clear F as [|? ? R F']. cbn [length repeat] in *.
     erewrite (place_step_line n); eauto; [ | lia ].
     replace (S (length px)) with (length (px ++ [cx a])) by (rewrite app_length; cbn; lia).
-    erewrite IHcs; cbn [ps_x ps_y ps_o ps_first]; try rewrite <- !app_assoc; try reflexivity; try assumption;
-      rewrite ?app_length; cbn [length]; lia.
+    rewrite (IHcs _ (px ++ [cx a]) (py ++ [cy a]) (po ++ [Some (co a)])); cbn [ps_x ps_y ps_o ps_first];
+      rewrite <- ?app_assoc; cbn [app]; try reflexivity; try assumption; rewrite ?app_length; cbn [length]; lia.
 Qed.
 
 Lemma read_place_export c :
@@ -210,8 +210,10 @@ Lemma read_place_export c :
   read_place (export_place c) (cell_names (length (cells c))) =
   Some (map cx (cells c), map cy (cells c), map (fun x => Some (co x)) (cells c)).
 Proof.
-  intros F. unfold read_place, export_place. cbn [fold_left].
-  unfold cell_names at 2. rewrite map_length, seq_length.
+  intros F. unfold read_place, export_place. cbv zeta.
+  replace (length (cell_names (length (cells c)))) with (length (cells c))
+    by (unfold cell_names; rewrite map_length, seq_length; reflexivity).
+  cbn [fold_left].
   change (place_step (cell_names (length (cells c)))
             (place_step (cell_names (length (cells c)))
                (Some (mkPS false (repeat 0 (length (cells c))) (repeat 0 (length (cells c))) (repeat None (length (cells c))))) (ucla "pl")) [])
@@ -237,12 +239,18 @@ Proof.
   rewrite IHrs, <- app_assoc. reflexivity.
 Qed.
 
+Lemma scan_desc y h x w o : real_orient o = true ->
+  scan_pairs (mkRS None None None None 1 oN true)
+    [TWord "Coordinate"; TInt y; TWord "Height"; TInt h; TWord "Sitewidth"; TInt 1;
+     TWord "Sitespacing"; TInt 1; TWord "Siteorient"; TOrient o; TWord "Sitesymmetry"; TInt 1;
+     TWord "SubrowOrigin"; TInt x; TWord "NumSites"; TInt w] = mkRS (Some x) (Some y) (Some w) (Some h) 1 o true.
+Proof. intros R. destruct o; try discriminate R; vm_compute; reflexivity. Qed.
+
 Lemma read_row_desc r : real_orient (rorient r) = true -> read_row (desc_of r) = Some r.
 Proof.
-  intros R. unfold read_row, desc_of. cbn [scan_pairs].
-  unfold pair_step. cbn [key_is]. cbn [lower lower_ascii nat_of_ascii ascii_of_nat].
-  cbn -[Z.add Z.mul Z.sub real_orient]. rewrite R. cbn -[Z.add Z.mul Z.sub].
-  destruct r; cbn [rminx rmaxx rminy rmaxy rorient]. f_equal. f_equal; lia.
+  destruct r as [x0 x1 y0 y1 o]. cbn [rorient]. intros R. unfold read_row, desc_of.
+  cbn [rminx rmaxx rminy rmaxy rorient]. rewrite (scan_desc _ _ _ _ _ R).
+  cbn [rs_ok rs_minx rs_miny rs_w rs_h rs_site rs_o]. f_equal. f_equal; lia.
 Qed.
 
 Lemma read_rows_export c :
@@ -283,8 +291,8 @@ Proof.
   induction cs; intros px py po Ly Lo; cbn [number_from map]; auto.
   f_equal.
   - unfold proj_cell, node_of. cbn [fst snd nw nh nfixed cw ch cfixed cx cy co].
-    rewrite (app_nth2 px) by lia. rewrite <- Ly at 1. rewrite (app_nth2 py) by lia. rewrite <- Lo at 1. rewrite (app_nth2 po) by lia.
-    rewrite !Nat.sub_diag. reflexivity.
+    rewrite (app_nth2 px), (app_nth2 py), (app_nth2 po) by lia.
+    rewrite Ly, Lo, !Nat.sub_diag. reflexivity.
   - replace (S (length px)) with (length (px ++ [cx a])) by (rewrite app_length; cbn; lia).
     specialize (IHcs (px ++ [cx a]) (py ++ [cy a]) (po ++ [co a])).
     rewrite <- !app_assoc in IHcs. cbn [app] in IHcs. apply IHcs; rewrite !app_length; cbn; lia.
@@ -353,19 +361,20 @@ Lemma wfb_correct c : wfb c = true <-> wf c.
 Proof.
   unfold wfb, wf. rewrite !andb_true_iff, !forallb_forall, !Forall_forall.
   split.
-  - intros (((A & B) & C) & D). repeat split; auto.
-    + specialize (C _ H). apply andb_true_iff in C. destruct x0; [destruct C; discriminate | discriminate].
-    + specialize (C _ H). apply andb_true_iff in C. destruct C as [_ C]. apply Forall_forall. intros p I.
-      rewrite forallb_forall in C. specialize (C p I). rewrite !andb_true_iff in C. destruct C as ((C1 & C2) & C3).
-      unfold pin_ok. rewrite <- !text_exactb_correct. apply Nat.ltb_lt in C1. auto.
+  - intros (((A & B) & C) & D). split; [exact A|]. split; [exact B|]. split.
+    + intros n I. specialize (C n I). apply andb_true_iff in C. destruct C as [C0 C]. split.
+      * destruct n; [discriminate|congruence].
+      * apply Forall_forall. intros p J. rewrite forallb_forall in C. specialize (C p J).
+        rewrite !andb_true_iff in C. destruct C as ((C1 & C2) & C3).
+        unfold pin_ok. rewrite <- !text_exactb_correct. apply Nat.ltb_lt in C1. auto.
     + destruct (row_height (rows c)) as [rh|]; [|discriminate]. exists rh. split; auto.
       apply orb_true_iff in D. destruct D as [D | D].
       * left. apply negb_true_iff, Z.eqb_neq in D. exact D.
       * right. apply Forall_forall. rewrite forallb_forall in D. intros x I. apply Z.ltb_lt. auto.
-  - intros (A & B & C & rh & D & E). repeat split; auto.
+  - intros (A & B & C & rh & D & E). split; [split; [split; [exact A|exact B]|]|].
     + intros n I. destruct (C n I) as [N F]. apply andb_true_iff. split; [destruct n; congruence|].
       apply forallb_forall. intros p J. rewrite Forall_forall in F. destruct (F p J) as (P1 & P2 & P3).
-      rewrite !andb_true_iff, !text_exactb_correct. repeat split; auto. apply Nat.ltb_lt; auto.
+      rewrite !andb_true_iff, !text_exactb_correct. split; [split|]; auto. apply Nat.ltb_lt; auto.
     + rewrite D. apply orb_true_iff. destruct E as [E | E].
       * left. apply negb_true_iff, Z.eqb_neq. exact E.
       * right. apply forallb_forall. rewrite Forall_forall in E. intros x I. apply Z.ltb_lt. auto.
